@@ -53,7 +53,95 @@ fn sink(fail_at: Option<usize>, short: bool) -> FaultSink {
     FaultSink { chunks: vec![], accepted: vec![], fail_at, short, calls: 0, failed: false, calls_after_failure: 0, short_done: false }
 }
 
+/// measure one template: fault-free run, then a failure at every write index (plain and short)
+fn one(ctx: &mut Ctx, kind: &str, t: &[Node], partials: &[PartialDef], data: &Object) {
+    let data = data.clone();
+    let t = t.to_vec();
+    let partials = partials.to_vec();
+    let parser = build_parser(&partials, Policy::Eager);
+    let text = src_tmpl(&t);
+    let tmpl = match catch_unwind(AssertUnwindSafe(|| parser.parse(&text))) {
+        Ok(Ok(t)) => t,
+        _ => return, // C01's business
+    };
+    // buffered render and fault-free streaming
+    let buffered = catch_unwind(AssertUnwindSafe(|| tmpl.render(&data)));
+    let mut s0 = sink(None, false);
+    let r0 = catch_unwind(AssertUnwindSafe(|| tmpl.render_to(&mut s0, &data)));
+    let obs = match (&r0, &buffered) {
+        (Ok(Ok(())), Ok(Ok(b))) => {
+            if b.as_bytes() == s0.accepted.as_slice() {
+                Obs::Ok(b.clone())
+            } else {
+                Obs::BadUtf8(s0.accepted.clone())
+            }
+        }
+        (Ok(Err(e)), Ok(Err(_))) => Obs::Err(e.to_string()),
+        (Err(_), _) | (_, Err(_)) => Obs::Panic("panic".into()),
+        _ => Obs::BadUtf8(b"streamed and buffered results differ".to_vec()),
+    };
+    let w = s0.calls;
+    let mut faults = Vec::new();
+    for short in [false, true] {
+        for k in 1..=w {
+            let mut s = sink(Some(k), short);
+            let r = catch_unwind(AssertUnwindSafe(|| tmpl.render_to(&mut s, &data)));
+            let tag = match r {
+                Ok(Ok(())) => "ok",
+                Ok(Err(ref e)) if e.to_string().is_empty() => "err-nomsg",
+                Ok(Err(_)) => "err",
+                Err(_) => "PANIC",
+            };
+            let is_prefix = s0.accepted.starts_with(&s.accepted);
+            faults.push(format!("{} {} {} {} {} {}", if short { "s" } else { "f" }, k, tag, s.accepted.len(), is_prefix as u8, s.calls_after_failure));
+        }
+    }
+    let mut toks = Vec::new();
+    enc_tmpl(&t, &mut toks);
+    let mut d = Vec::new();
+    enc_view(&data, &mut d);
+    let chunk_lens: Vec<String> = s0.chunks.iter().map(|c| c.len().to_string()).collect();
+    ctx.emit(format!(
+        "sink {} {} {} {} => {} chunks {} {} faults {} {} #{}:{}",
+        kind,
+        toks.join(" "),
+        d.join(" "),
+        partial_tokens(&partials),
+        obs.tokens(),
+        chunk_lens.len(),
+        chunk_lens.join(" "),
+        faults.len(),
+        faults.join(" "),
+        crate::proto::xs(&text),
+        crate::proto::xs(&serde_json::to_string(&data).unwrap_or_default()),
+    ));
+}
+
+/// templates in which a construct keeps writing while an interrupt is pending (ifchanged flushes its
+/// buffer after a `break` inside it, tablerow closes its cell and row, an include returns into a loop
+/// body): a sink failure on such a write must surface like any other
+fn late_writers() -> Vec<(Vec<Node>, Vec<PartialDef>)> {
+    let arr3 = RangeE::Counted(lit_i(1), lit_i(3));
+    let f = |body: Vec<Node>| Node::For { x: "i".into(), rng: RangeE::Counted(lit_i(1), lit_i(3)), limit: None, offset: None, rev: false, body, els: None };
+    let mut v: Vec<(Vec<Node>, Vec<PartialDef>)> = Vec::new();
+    for intr in [Node::Break, Node::Continue] {
+        v.push((vec![f(vec![Node::IfChanged(vec![out(var("i")), intr.clone()]), text("|")]), text(" tail")], vec![]));
+        v.push((vec![f(vec![Node::TableRow { x: "j".into(), rng: arr3.clone(), cols: Some(lit_i(2)), limit: None, offset: None, body: vec![out(var("j")), intr.clone()] }, text("-")]), text("end")], vec![]));
+        v.push((vec![f(vec![text("["), Node::Include(lit_s("brk"), vec![]), text("]")]), text("end")], vec![("brk".into(), Ok(vec![text("in"), intr.clone(), text("never")]))]));
+        v.push((vec![f(vec![f(vec![out(var("i")), Node::IfChanged(vec![text("c"), intr.clone()])]), text(";")]), text("end")], vec![]));
+        v.push((vec![f(vec![Node::Capture("c".into(), vec![text("x"), intr.clone()]), out(var("c")), text("?")]), text("end")], vec![]));
+        v.push((vec![Node::TableRow { x: "j".into(), rng: arr3.clone(), cols: Some(lit_i(2)), limit: None, offset: None, body: vec![f(vec![out(var("i")), intr.clone()]), text("c")] }, text("end")], vec![]));
+        v.push((vec![f(vec![Node::Render(lit_s("loop"), RForm::For(arr3.clone(), "k".into()), vec![]), text("/")]), text("end")], vec![("loop".into(), Ok(vec![out(var("k")), intr.clone(), text("never")]))]));
+    }
+    // a trailing partial row: `</tr>` is written once more after the last cell
+    v.push((vec![Node::TableRow { x: "j".into(), rng: arr3.clone(), cols: Some(lit_i(2)), limit: None, offset: None, body: vec![out(var("j"))] }, text(" tail")], vec![]));
+    v
+}
+
 pub fn run(ctx: &mut Ctx) {
+    for (t, partials) in late_writers() {
+        one(ctx, "late", &t, &partials, &Object::new());
+    }
     let n = if ctx.tier_thorough { 50_000 } else { 2_500 };
     let mut g = Gen::new(ctx.seed ^ 0xC10);
     g.allow_partials = true;
@@ -73,62 +161,6 @@ pub fn run(ctx: &mut Ctx) {
         let t = g.body(3, 4);
         let mut data = g.data();
         data.insert("pname".into(), liquid_core::model::Value::scalar("p1"));
-        let parser = build_parser(&partials, Policy::Eager);
-        let text = src_tmpl(&t);
-        let tmpl = match catch_unwind(AssertUnwindSafe(|| parser.parse(&text))) {
-            Ok(Ok(t)) => t,
-            _ => continue, // C01's business
-        };
-        // buffered render and fault-free streaming
-        let buffered = catch_unwind(AssertUnwindSafe(|| tmpl.render(&data)));
-        let mut s0 = sink(None, false);
-        let r0 = catch_unwind(AssertUnwindSafe(|| tmpl.render_to(&mut s0, &data)));
-        let obs = match (&r0, &buffered) {
-            (Ok(Ok(())), Ok(Ok(b))) => {
-                if b.as_bytes() == s0.accepted.as_slice() {
-                    Obs::Ok(b.clone())
-                } else {
-                    Obs::BadUtf8(s0.accepted.clone())
-                }
-            }
-            (Ok(Err(e)), Ok(Err(_))) => Obs::Err(e.to_string()),
-            (Err(_), _) | (_, Err(_)) => Obs::Panic("panic".into()),
-            _ => Obs::BadUtf8(b"streamed and buffered results differ".to_vec()),
-        };
-        let w = s0.calls;
-        let mut faults = Vec::new();
-        for short in [false, true] {
-            for k in 1..=w {
-                let mut s = sink(Some(k), short);
-                let r = catch_unwind(AssertUnwindSafe(|| tmpl.render_to(&mut s, &data)));
-                let tag = match r {
-                    Ok(Ok(())) => "ok",
-                    Ok(Err(ref e)) if e.to_string().is_empty() => "err-nomsg",
-                    Ok(Err(_)) => "err",
-                    Err(_) => "PANIC",
-                };
-                let is_prefix = s0.accepted.starts_with(&s.accepted);
-                faults.push(format!("{} {} {} {} {} {}", if short { "s" } else { "f" }, k, tag, s.accepted.len(), is_prefix as u8, s.calls_after_failure));
-            }
-        }
-        let mut toks = Vec::new();
-        enc_tmpl(&t, &mut toks);
-        let mut d = Vec::new();
-        enc_view(&data, &mut d);
-        let chunk_lens: Vec<String> = s0.chunks.iter().map(|c| c.len().to_string()).collect();
-        ctx.emit(format!(
-            "sink gen {} {} {} => {} chunks {} {} faults {} {} #{}:{}",
-            toks.join(" "),
-            d.join(" "),
-            partial_tokens(&partials),
-            obs.tokens(),
-            chunk_lens.len(),
-            chunk_lens.join(" "),
-            faults.len(),
-            faults.join(" "),
-            crate::proto::xs(&text),
-            crate::proto::xs(&serde_json::to_string(&data).unwrap_or_default()),
-        ));
-        let _: Option<Object> = None;
+        one(ctx, "gen", &t, &partials, &data);
     }
 }
